@@ -525,51 +525,127 @@ def _elementwise(chk, repo):
     last = body[-1]
     chk.decide(unparse(last) == "return func(*args, **kwargs)", "C01.elementwise", W, "scalar path: " + short(last),
                why="scalar in, scalar out: the function applied once to the unchanged arguments", node=last)
-    # data generators
-    gens = [n for n in ast.walk(mi) if isinstance(n, ast.Assign) and unparse(n.targets[0]) == "data"]
-    chk.require(len(gens) == 2, "elementwise wrapper: the two 'data' generators not found")
-    for g in gens:
-        ge = g.value
-        ok = isinstance(ge, ast.GeneratorExp) and unparse(ge.generators[0].iter) == "arg" and not ge.generators[0].ifs
-        x = unparse(ge.generators[0].target) if ok else "x"
-        under_pos = isinstance(g._parent, ast.If) and g in g._parent.body and unparse(g._parent.test) == "positional"
-        if ok and under_pos:
-            c = ge.elt
-            ok = isinstance(c, ast.Call) and unparse(c.func) == "func" and len(c.args) == 1 and isinstance(c.args[0], ast.Starred)
-            if ok:
-                cat = c.args[0].value
-                parts = []
+    # what is called for each element, per arm: the iterable arm with `positional` decided (guards resolved by
+    # sa/dtable.specialise), the generator's element with the locals bound once before it (slices of args, a local
+    # lambda) written out, compared with the call the contract describes
+    from ..dtable import Facts as _F, specialise as _spec
+    import copy as _copy
 
-                def flat(e):
-                    if isinstance(e, ast.BinOp) and isinstance(e.op, ast.Add):
-                        flat(e.left)
-                        flat(e.right)
-                    else:
-                        parts.append(e)
-                flat(cat)
-                ok = len(parts) == 3 and unparse(parts[1]) == "(%s,)" % x
+    class _Expand(ast.NodeTransformer):
+        def __init__(self, env):
+            self.env = env
+
+        def visit_Name(self, n):
+            if isinstance(n.ctx, ast.Load) and n.id in self.env:
+                return _copy.deepcopy(self.env[n.id])
+            return n
+
+        def visit_Call(self, n):
+            n = self.generic_visit(n)
+            f = n.func
+            if isinstance(f, ast.Lambda) and not n.keywords and len(f.args.args) == len(n.args) and not (
+                    f.args.vararg or f.args.kwarg or f.args.kwonlyargs or f.args.defaults) and all(
+                    isinstance(a_, (ast.Name, ast.Constant)) for a_ in n.args):
+                sub = dict((p_.arg, a_) for p_, a_ in zip(f.args.args, n.args))
+                return _Expand(sub).visit(_copy.deepcopy(f.body))
+            return n
+
+    def _per_element(positional):
+        """(call expression per element with x the element, or None) for one arm"""
+        arm = _spec(mi.body, _F(truths={"positional": positional}))
+        env, data = {}, None
+        rebound = {}
+        for st_ in arm:
+            for n_ in ast.walk(st_):
+                if isinstance(n_, ast.Name) and isinstance(n_.ctx, ast.Store):
+                    rebound[n_.id] = rebound.get(n_.id, 0) + 1
+        for st_ in arm:
+            if not isinstance(st_, ast.Assign) or len(st_.targets) != 1:
+                if isinstance(st_, (ast.If, ast.Return, ast.Try, ast.ImportFrom, ast.Import)) and data is not None:
+                    break
+                continue
+            tg, v = st_.targets[0], st_.value
+            if isinstance(tg, ast.Name) and tg.id == "data":
+                data = _Expand(env).visit(_copy.deepcopy(v))
+                continue
+            pairs = []
+            if isinstance(tg, ast.Name):
+                pairs = [(tg.id, v)]
+            elif isinstance(tg, ast.Tuple) and isinstance(v, ast.Tuple) and len(tg.elts) == len(v.elts) \
+                    and all(isinstance(e_, ast.Name) for e_ in tg.elts):
+                pairs = [(e_.id, v_) for e_, v_ in zip(tg.elts, v.elts)]
+            for nm_, v_ in pairs:
+                # slices / sums of args, tuples, lambdas: values that do not change and read nothing that does
+                pure = all(isinstance(n_, (ast.Subscript, ast.Slice, ast.Name, ast.Constant, ast.BinOp, ast.Add, ast.Load,
+                                           ast.Tuple, ast.Lambda, ast.arguments, ast.arg, ast.Call, ast.Starred,
+                                           ast.keyword, ast.Dict, ast.List, ast.Attribute, ast.Sub, ast.UnaryOp, ast.USub))
+                           for n_ in ast.walk(v_))
+                if pure and rebound.get(nm_) == 1 and data is None and (isinstance(v_, ast.Lambda) or not any(
+                        isinstance(n_, ast.Call) for n_ in ast.walk(v_))):
+                    env[nm_] = _Expand(env).visit(_copy.deepcopy(v_))
+        if data is None:
+            return None, None
+        if isinstance(data, ast.Call) and unparse(data.func) in ("xmap", "map", "it.imap") and len(data.args) == 2 \
+                and unparse(data.args[1]) == "arg" and isinstance(data.args[0], ast.Lambda) and len(data.args[0].args.args) == 1:
+            # map(lambda x: .., arg): the same thing
+            return data.args[0].args.args[0].arg, data.args[0].body
+        if isinstance(data, ast.GeneratorExp) and len(data.generators) == 1 and unparse(data.generators[0].iter) == "arg" \
+                and not data.generators[0].ifs and isinstance(data.generators[0].target, ast.Name):
+            return data.generators[0].target.id, data.elt
+        return None, data
+
+    def _flat_sum(e, parts):
+        if isinstance(e, ast.BinOp) and isinstance(e.op, ast.Add):
+            _flat_sum(e.left, parts)
+            _flat_sum(e.right, parts)
+        else:
+            parts.append(e)
+        return parts
+
+    for positional in (True, False):
+        x, c = _per_element(positional)
+        label = "positional map: " if positional else "keyword map: "
+        if x is None:
+            if c is None:
+                raise AnalysisError("elementwise wrapper: the mapped 'data' of the %s arm not found"
+                                    % ("positional" if positional else "keyword"))
+            chk.bad("C01.elementwise", W, short(c), "mapped data must be a generator expression over arg", node=mi)
+            continue
+        ok = isinstance(c, ast.Call) and unparse(c.func) == "func"
+        stars = [a_ for a_ in c.args if isinstance(a_, ast.Starred)] if ok else []
+        dstar = [k_.value for k_ in c.keywords if k_.arg is None] if ok else []
+        named = [k_ for k_ in c.keywords if k_.arg is not None] if ok else []
+        if positional:
+            ok = ok and len(c.args) == 1 and len(stars) == 1 and not named
+            if ok:
+                parts = _flat_sum(stars[0].value, [])
+                ok = len(parts) == 3 and unparse(parts[1]) in ("(%s,)" % x, "[%s]" % x)
                 if ok:
                     a, b = parts[0], parts[2]
                     try:
-                        ok = isinstance(a, ast.Subscript) and unparse(a.value) == "args" and a.slice.lower is None \
+                        ok = isinstance(a, ast.Subscript) and unparse(a.value) == "args" and isinstance(a.slice, ast.Slice) \
+                            and a.slice.lower is None and a.slice.step is None \
                             and Evaluator().ev(a.slice.upper) == RF.sym("pos") \
-                            and isinstance(b, ast.Subscript) and unparse(b.value) == "args" and b.slice.upper is None \
+                            and isinstance(b, ast.Subscript) and unparse(b.value) == "args" and isinstance(b.slice, ast.Slice) \
+                            and b.slice.upper is None and b.slice.step is None \
                             and Evaluator().ev(b.slice.lower) == RF.sym("pos") + 1
                     except (Inconclusive, AttributeError):
                         ok = False
-                ok = ok and [unparse(k.value) for k in c.keywords if k.arg is None] == ["kwargs"]
-            chk.decide(ok, "C01.elementwise", W, "positional map: " + short(ge, 120),
-                       why="each element must replace exactly args[pos]: args[:pos] + (x,) + args[pos+1:], other "
-                           "arguments unchanged", node=g)
-        elif ok:
-            c = ge.elt
-            ok = isinstance(c, ast.Call) and unparse(c.func) == "func" and [unparse(a) for a in c.args] == ["*args"] \
-                and len(c.keywords) == 1 and c.keywords[0].arg is None \
-                and unparse(c.keywords[0].value) == "dict(it.chain(iteritems(kwargs), [(name, %s)]))" % x
-            chk.decide(ok, "C01.elementwise", W, "keyword map: " + short(ge, 120),
-                       why="each element must replace exactly the keyword `name` (last in the chain so it wins)", node=g)
+            ok = ok and [unparse(k_) for k_ in dstar] == ["kwargs"]
+            chk.decide(ok, "C01.elementwise", W, label + short(c, 120),
+                       why="each element must replace exactly args[pos]: func(*(args[:pos] + (x,) + args[pos+1:]), "
+                           "**kwargs) - the other positional arguments and every keyword argument unchanged", node=mi)
         else:
-            chk.bad("C01.elementwise", W, short(g), "mapped data must be a generator expression over arg", node=g)
+            ok = ok and [unparse(a_) for a_ in c.args] == ["*args"] and not named and len(dstar) == 1
+            if ok:
+                merged = unparse(dstar[0])
+                ok = merged in ("dict(it.chain(iteritems(kwargs), [(name, %s)]))" % x,
+                                "dict(it.chain(kwargs.items(), [(name, %s)]))" % x,
+                                "dict(kwargs, **{name: %s})" % x, "{**kwargs, name: %s}" % x,
+                                "dict(list(kwargs.items()) + [(name, %s)])" % x)
+            chk.decide(ok, "C01.elementwise", W, label + short(c, 120),
+                       why="each element must replace exactly the keyword `name` (last, so it wins) with every other "
+                           "argument unchanged: func(*args, **{kwargs with name: x})", node=mi)
     # returns in the iterable arm, in order
     rets = sorted([n for n in ast.walk(mi) if isinstance(n, ast.Return)], key=lambda n: n.lineno)
     shapes = []
